@@ -321,10 +321,10 @@ func TestVerifC09(t *testing.T) {
 	flush()
 
 	// 2. random sources of size 1..40 (thorough: 1..120), targets from 1 to 5x, optional second scaling
-	n := 20000
+	n := 60000
 	maxSrc := 40
 	if thorough {
-		n = 250000
+		n = 900000
 		maxSrc = 120
 	}
 	for i := 0; i < n; i++ {
